@@ -4,7 +4,8 @@ from .series_props import fold_canaries
 from .hermitian_common import specs_hermitian, LEAN_SETTING_NOTE
 
 LEAN = ["PV.C04_charpoly_similarity", "PV.C04_charpoly_truncation", "PV.C04_truncated",
-        "PV.C01_similarity", "PV.C02_unit_left", "PV.C02_unit_right"]
+        "PV.C01_similarity", "PV.C02_unit_left", "PV.C02_unit_right",
+        "PV.TB.C01_similarity", "PV.TB.C02_unit_left", "PV.TB.C02_unit_right"]
 
 
 def check(tier, seed):
